@@ -88,6 +88,9 @@ def run_case(ctx, p):
     v = case.variances()
     mc = None
     optsets = [{}, {"mc_remove_set_flag": False}, {"reduce_memory_usage": True}] + ([{"var_only_sections": True}, {"exclude_parameter_uncertainty": True}] if f.double else [])
+    if not np.all(np.isfinite(out.p_cov.values)):
+        ctx.count("monte-carlo-skipped-nonfinite-p_cov")   # as many unknowns as observations: nothing to sample from
+        optsets = []
     for oi, opts in enumerate(optsets):  # every option set of the Monte Carlo routines must hand the definitions on
         oname = ",".join(f"{k}={val}" for k, val in opts.items()) or "default"
         try:
